@@ -299,4 +299,56 @@ func (e *Exec) envPatternIntrinsic(fn *ssa.Function, name string) Intrinsic {
 	return nil
 }
 
+func init() {
+	R := func(name string, in Intrinsic) { intrinsics[name] = in }
+	put := func(nbytes int, big bool) Intrinsic {
+		return func(e *Exec, st *State, fn *ssa.Function, args []Value, depth int) []Outcome {
+			s, ok := args[len(args)-2].(Slice)
+			if !ok || s.Len < nbytes {
+				return []Outcome{{Kind: OutPanic, St: st, Pan: e.runtimeError("index out of range (binary.Put)")}}
+			}
+			v := args[len(args)-1].(*Term)
+			for i := 0; i < nbytes; i++ {
+				shift := uint(8 * (nbytes - 1 - i))
+				if !big {
+					shift = uint(8 * i)
+				}
+				b := e.TS.ModC(e.TS.DivC(v, new(bigInt).Lsh(bigOne(), shift)), bigFromInt(256))
+				e.store(st, Ptr{Obj: s.Base.Obj, Path: pathAppend(s.Base.Path, s.Off+i)}, b)
+			}
+			return ret1(st, nil)
+		}
+	}
+	get := func(nbytes int, big bool) Intrinsic {
+		return func(e *Exec, st *State, fn *ssa.Function, args []Value, depth int) []Outcome {
+			s, ok := args[len(args)-1].(Slice)
+			if !ok || s.Len < nbytes {
+				return []Outcome{{Kind: OutPanic, St: st, Pan: e.runtimeError("index out of range (binary.Uint)")}}
+			}
+			elems := e.sliceElems(st, s)
+			var parts []*Term
+			for i := 0; i < nbytes; i++ {
+				shift := uint(8 * (nbytes - 1 - i))
+				if !big {
+					shift = uint(8 * i)
+				}
+				parts = append(parts, e.TS.Mul(elems[i].(*Term), e.TS.Int(new(bigInt).Lsh(bigOne(), shift))))
+			}
+			return ret1(st, e.TS.Add(parts...))
+		}
+	}
+	for _, n := range []struct {
+		name string
+		n    int
+	}{{"Uint16", 2}, {"Uint32", 4}, {"Uint64", 8}} {
+		R("(encoding/binary.bigEndian).Put"+n.name, put(n.n, true))
+		R("(encoding/binary.bigEndian)."+n.name, get(n.n, true))
+		R("(encoding/binary.littleEndian).Put"+n.name, put(n.n, false))
+		R("(encoding/binary.littleEndian)."+n.name, get(n.n, false))
+	}
+}
+
+func bigOne() *bigInt           { return new(bigInt).SetInt64(1) }
+func bigFromInt(i int64) *bigInt { return new(bigInt).SetInt64(i) }
+
 var _ = fmt.Sprintf
